@@ -1,6 +1,8 @@
 /* C01/C16 harness: run reads and extent queries on real dirfiles.
  * stdin, one command per line:
  *   O <dir>                 gd_open(dir, GD_RDONLY), lookback = ALL   -> "O <err>"
+ *   W <dir>                 gd_open(dir, GD_RDWR)                      -> "W <err>"
+ *   P <field> <s> <n>       gd_putdata64(field, 0, s, 0, n, FLOAT64; values 1000+s+i) -> "P <err> <count>"
  *   L <n>                   gd_mplex_lookback(D, n)  (-1 = all)       -> "L"
  *   G <field> <rt> <s> <n>  gd_getdata64(field, 0, s, 0, n, rt)       -> "G <err> <count> <hex>..."
  *   E <field>               gd_eof64 / gd_bof64 / gd_spf              -> "E <eof> <bof> <spf>"
@@ -32,6 +34,20 @@ static int run_block(char **lines, int nl)
       D = gd_open(a, GD_RDONLY);
       gd_mplex_lookback(D, GD_LOOKBACK_ALL);
       printf("O %d\n", gd_error(D));
+    } else if (line[0] == 'W') {
+      if (sscanf(line + 1, "%2047s", a) != 1) { printf("W bad\n"); continue; }
+      if (D) gd_discard(D);
+      D = gd_open(a, GD_RDWR);
+      gd_mplex_lookback(D, GD_LOOKBACK_ALL);
+      printf("W %d\n", gd_error(D));
+    } else if (line[0] == 'P') {
+      long long s; unsigned long long n, i; size_t put; double *buf;
+      if (!D || sscanf(line + 1, "%2047s %lld %llu", a, &s, &n) != 3) { printf("P bad\n"); continue; }
+      buf = malloc((n + 1) * sizeof(double));
+      for (i = 0; i < n; i++) buf[i] = 1000. + s + i;
+      put = gd_putdata64(D, a, 0, (off64_t)s, 0, (size_t)n, GD_FLOAT64, buf);
+      printf("P %d %llu\n", gd_error(D), (unsigned long long)put);
+      free(buf);
     } else if (line[0] == 'L') {
       int n = -1; sscanf(line + 1, "%d", &n);
       if (D) gd_mplex_lookback(D, n);
